@@ -296,14 +296,21 @@ def _(E, case):
     else:
         vals = nums(n, "a")
         if up == "A":
-            t, vals = arc_text(vals)
-            text, args = letter + " " + t + " #", vals
+            t, avals = arc_text(vals)
+            text, args = letter + " " + t + " #", avals
         else:
             text, args = letter + " " + " ".join(["%s"] * n) + " ?", vals
     out = E.catch(lambda: E.call(p, "parse", E.text(text, *args)))
     E.ensure("returns_or_raises_ValueError_only", Or(out.ok, out.exc == "ValueError"))
     segs = E.items(E.get(p, "_segments"))
     E.ensure("stored_prefix_retained", And(len(segs) >= n0, *[E.clsname(s) == k for s, k in zip(segs, kinds)]))
+    complete_first_group = what.startswith("group_then_") or what == "then_garbage"
+    if complete_first_group and (state["cur"] is not None or up == "M"):
+        # render up to the error: the operand group that was complete before the error is drawn
+        first_vals = vals[:n] if up != "A" else vals[:3] + [1, 1] + vals[5:7]
+        want, _st = S.group(dict(state), letter, first_vals)
+        E.ensure("the_completed_group_before_the_error_is_retained",
+                 And(len(segs) >= n0 + 1, seg_matches(E, view(E, segs[n0]), want[:5])) if len(segs) > n0 else False)
     conds = []
     for s in segs[n0:]:
         k = E.clsname(s)
